@@ -33,16 +33,16 @@ Proof.
 Qed.
 
 (* ---- a concrete instance: the premises are satisfiable and the AST is what one expects ----
-     %token NUM 300   %left '+'   %%   e : e '+' e { $$ = $1 + $3 } | NUM ;
+     %{p%}   %union { v }   %token NUM 300   %left '+'   %%   e : e '+' e {x} | NUM ;
    once with single blanks and once with comments and line breaks. *)
 Open Scope char_scope.
 Definition ex_spec : spec :=
-  {| s_decls := [SDTok None [TId ["N"; "U"; "M"] (Some ["3"; "0"; "0"])]; SDPrec KLeft None [PCh ["+"]]];
+  {| s_decls := [SDCode ["p"]; SDUnion [" "; "v"; " "]; SDTok None [TId ["N"; "U"; "M"] (Some ["3"; "0"; "0"])]; SDPrec KLeft None [PCh ["+"]]];
      s_groups := [{| g_lhs := ["e"];
                      g_first := [ESym (PId ["e"]); ESym (PCh ["+"]); ESym (PId ["e"]); EAct ["{"; "x"; "}"]];
                      g_more := [[ESym (PId ["N"; "U"; "M"])]]; g_semi := true |}] |}.
 Definition ex_tokens : list ltoken :=
-  [TkDir DToken; TkId "N" ["U"; "M"]; TkNum "3" ["0"; "0"]; TkDir DLeft; TkChar "+"; TkSect;
+  [TkCode ["p"]; TkUnion [" "; "v"; " "; "}"]; TkDir DToken; TkId "N" ["U"; "M"]; TkNum "3" ["0"; "0"]; TkDir DLeft; TkChar "+"; TkSect;
    TkId "e" []; TkPunct PColon; TkId "e" []; TkChar "+"; TkId "e" []; TkAct ["x"; "}"]; TkPunct PBar; TkId "N" ["U"; "M"]; TkPunct PSemi].
 Definition sp1 : list sepr := [SWs " "].
 Definition sp2 : list sepr := [SWs nl; SBlock ["*"; " "; "c"; " "; "*"]; SLine ["x"]; SWs " "].
@@ -61,8 +61,8 @@ Example ex_parsed :
   parse_text (render ex_doc1 []) = PAst (spec_ast ex_spec []) /\
   parse_text (render ex_doc2 []) = parse_text (render ex_doc1 []) /\
   spec_ast ex_spec [] =
-    mkAst (mkDecl [] [[mkIdent ["N"; "U"; "M"] TermId 300 [] []]; [mkIdent (gen_temp_name ["+"]) TermId 43 [] []]]
-                  [[mkPrecdef ALeft (gen_temp_name ["+"])]] [] [] start_default)
+    mkAst (mkDecl ["p"] [[mkIdent ["N"; "U"; "M"] TermId 300 [] []]; [mkIdent (gen_temp_name ["+"]) TermId 43 [] []]]
+                  [[mkPrecdef ALeft (gen_temp_name ["+"])]] [] [" "; "v"; " "] start_default)
           [mkRuledef 0 ["e"] [RSym ["e"]; RSym (gen_temp_name ["+"]); RSym ["e"]; RAct ["{"; "x"; "}"]] [];
            mkRuledef 0 ["e"] [RSym ["N"; "U"; "M"]] []] [].
 Proof.
